@@ -758,8 +758,31 @@ def _match_statements(fn):
     ast.fix_missing_locations(fn)
 
 
+def _suppress_blocks(fn):
+    """E24: `with contextlib.suppress(A, B): BODY` is `try: BODY` / `except (A, B): pass` (that is its definition); written
+    that way the CFG has the edge from a raising BODY to the statement after the block."""
+    if "E24" in _SKIP:
+        return
+    for n in ast.walk(fn):
+        for b in _blocks(n):
+            out = []
+            for s in b:
+                if isinstance(s, ast.With) and len(s.items) == 1 and s.items[0].optional_vars is None and isinstance(s.items[0].context_expr, ast.Call):
+                    c = s.items[0].context_expr
+                    nm = c.func.attr if isinstance(c.func, ast.Attribute) else (c.func.id if isinstance(c.func, ast.Name) else None)
+                    if nm == "suppress" and c.args and not c.keywords and not any(isinstance(a, ast.Starred) for a in c.args):
+                        typ = c.args[0] if len(c.args) == 1 else ast.Tuple(elts=list(c.args), ctx=ast.Load())
+                        h = ast.ExceptHandler(type=typ, name=None, body=[ast.copy_location(ast.Pass(), s)])
+                        out.append(ast.copy_location(ast.Try(body=s.body, handlers=[ast.copy_location(h, s)], orelse=[], finalbody=[]), s))
+                        continue
+                out.append(s)
+            b[:] = out
+    ast.fix_missing_locations(fn)
+
+
 def _canon_function(fn):
     _match_statements(fn)
+    _suppress_blocks(fn)
     _plain_assigns(fn)
     for _round in range(4):   # an arm may itself be a conditional expression with a call
         before_ = sum(1 for x in ast.walk(fn) if isinstance(x, ast.IfExp))
